@@ -593,12 +593,8 @@ Interval<To_Boundary, To_Info>::refine_universal(Relation_Symbol rel,
       if (check_empty_arg(*this)) {
         return I_EMPTY;
       }
-      if (eq(LOWER, lower(), info(), LOWER, f_lower(x), f_info(x))) {
-        remove_inf();
-      }
-      if (eq(UPPER, upper(), info(), UPPER, f_upper(x), f_info(x))) {
-        remove_sup();
-      }
+      // The values different from every member of x are those not in x.
+      difference_assign(x);
       return I_ANY;
     }
   default:
